@@ -135,7 +135,7 @@ class C12(Prop):
         return ic.iso_request(case)
 
     def compare(self, case, io, mo):
-        return ic.compare_xr(io, mo, exact=False, tol=1e-7 if case["f"] == "expectile" else 1e-9, scale=ic.data_scale(case))
+        return ic.compare_xr(io, mo, exact=False, tol=1e-7 if case["f"] == "expectile" else 1e-9, scale=ic.data_scale(case), ylocal=case["y"])
 
     def oracle(self, case, io):
         if "err" in io:
